@@ -462,6 +462,120 @@ fn run_custom_transcripts(cx: &mut CaseCx, case: &Value) {
   cx.outcome(format!("t={} transcript={}", t, which));
 }
 
+
+/// sharks level: secrets whose ELEMENTS have special values (an aligned all-zero chunk, one, p-1, repeated) -
+/// every element's polynomial has exact degree t-1 with non-zero, pairwise distinct non-constant coefficients,
+/// and no single share carries a secret element as its value
+fn run_special_secrets(cx: &mut CaseCx, case: &Value) {
+  use star_sharks::{Share, Sharks};
+  let t = case["t"].as_u64().unwrap() as u32;
+  let p = rm::p();
+  let one = BigUint::from(1u32);
+  let specials: Vec<Vec<BigUint>> = vec![
+    vec![BigUint::zero()],
+    vec![BigUint::zero(), BigUint::zero()],
+    vec![BigUint::from(7u32), BigUint::zero(), BigUint::from(9u32)],
+    vec![BigUint::zero(), BigUint::from(7u32)],
+    vec![one.clone()],
+    vec![&p - &one, BigUint::zero(), &p - &one],
+    vec![BigUint::from(5u32), BigUint::from(5u32), BigUint::from(5u32)],
+    vec![&one << 64usize, BigUint::zero()],
+  ];
+  for elems in specials {
+    let mut secret = vec![];
+    for e in &elems {
+      secret.extend_from_slice(&rm::le24(e));
+    }
+    cx.entropy(fnv(&secret) ^ t as u64);
+    let shares: Vec<Share> = match guard(|| sharks_dealer(t, &secret).map(|d| d.take(t as usize + 1).collect::<Vec<Share>>())) {
+      Ok(Ok(s)) => s,
+      _ => continue,
+    };
+    if shares.len() != t as usize + 1 {
+      continue;
+    }
+    cx.eval();
+    cx.nontrivial(fnv(&secret) ^ ((t as u64) << 40));
+    let names: Vec<String> = elems.iter().map(|e| e.to_string()).collect();
+    let d = || json!({"t": t, "secret_elements": names});
+    let mut seen: HashMap<BigUint, usize> = HashMap::new();
+    for (j, e) in elems.iter().enumerate() {
+      let pts: Vec<(BigUint, BigUint)> = shares.iter().map(|s| (fp_to_big(&s.x), s.y.get(j).map(fp_to_big).unwrap_or_default())).collect();
+      let coeffs = rm::interpolate_coeffs(&pts[..t as usize]);
+      if coeffs[0] != *e || rm::horner(&coeffs, &pts[t as usize].0) != pts[t as usize].1 {
+        cx.viol("C02/poly/not-one-polynomial", format!("element {} of the secret {:?}: the shares are not on one polynomial of degree <= t-1 with that constant term", j, names), d());
+        return;
+      }
+      for (i, c) in coeffs.iter().enumerate().skip(1) {
+        if c.is_zero() {
+          cx.viol(if i == t as usize - 1 { "C02/poly/degree-too-low" } else { "C02/poly/zero-coefficient" }, format!("element {} (value {}) of the secret {:?} is shared with a polynomial whose coefficient {} is zero{}", j, e, names, i, if t >= 2 { ": fewer than t shares determine it (for a constant polynomial a single share carries the element itself)" } else { "" }), d());
+          return;
+        }
+        if let Some(prev) = seen.insert(c.clone(), j) {
+          cx.viol("C02/poly/coefficient-repeated", format!("elements {} and {} of the secret {:?} are shared with the same non-constant coefficient", prev, j, names), d());
+          return;
+        }
+      }
+      // no single share carries the element as its value (t >= 2)
+      if t >= 2 {
+        if let Some(k) = pts.iter().position(|q| q.1 == *e) {
+          cx.viol("C02/share-carries-secret", format!("share number {} carries element {} (value {}) of the secret {:?} in the clear", k + 1, j, e, names), d());
+          return;
+        }
+      }
+      cx.count("special_elements_examined", 1);
+    }
+  }
+  cx.outcome(format!("t={}", t));
+}
+
+/// E-env: the caller's entropy answers with a RUN of zeros (1..16 all-zero 24-byte candidates, then fresh): the
+/// share point must never be x = 0 (the value at 0 is the sharing key itself) and the share must not carry the
+/// sharing key as its value
+fn run_zero_entropy_runs(cx: &mut CaseCx, case: &Value) {
+  let t = case["t"].as_u64().unwrap() as u32;
+  let meas = b"zero entropy runs".to_vec();
+  let epoch = b"e".to_vec();
+  let rnd = local_randomness(&meas, &epoch, t);
+  // the sharing key, from t honest reports
+  let mut pts: Vec<(BigUint, BigUint)> = vec![];
+  for k in 0..t {
+    getrandom::verif::set_group(k + 1);
+    if let Ok(m) = gen_report(&meas, &epoch, t, &rnd, &None) {
+      if let Some(p) = rm::parse_adss(&m.share.to_bytes()) {
+        if let Some(y) = p.s.y.first() {
+          pts.push((p.s.x.clone(), y.clone()));
+        }
+      }
+    }
+  }
+  if pts.len() != t as usize {
+    return;
+  }
+  let key = rm::lagrange_at_zero(&pts);
+  for run in [1usize, 2, 3, 7, 8, 9, 15, 16, 33] {
+    getrandom::verif::set_script(&vec![0u8; 24 * run]);
+    let r = gen_report(&meas, &epoch, t, &rnd, &None);
+    getrandom::verif::clear_script();
+    cx.eval();
+    cx.nontrivial(fnv_str(&format!("{}|{}", t, run)));
+    match r {
+      Ok(m) => {
+        if let Some(p) = rm::parse_adss(&m.share.to_bytes()) {
+          if p.s.x.is_zero() || p.s.y.first() == Some(&key) {
+            cx.viol("C02/share-carries-secret/zero-entropy-run", format!("a client whose entropy source answers with {} all-zero candidates in a row produces the share at x = {} whose value is the sharing key itself (threshold {})", run, p.s.x, t), json!({"t": t, "zero_candidates": run}));
+            return;
+          }
+          cx.count("zero_runs_survived", 1);
+        }
+      }
+      // refusing to produce a share under a broken entropy source is acceptable
+      Err(_) => cx.count("zero_runs_refused", 1),
+    }
+  }
+  cx.outcome(format!("t={}", t));
+}
+
 /// forged threshold field on sub-threshold collections of A's own shares
 fn run_forged(cx: &mut CaseCx, case: &Value) {
   let t = case["t"].as_u64().unwrap() as u32;
@@ -983,6 +1097,20 @@ pub fn spec() -> PropSpec {
         },
         run: run_custom_transcripts,
         min_counts: &[("transcript_sharings_examined", 300)],
+      },
+      Check {
+        name: "special-secrets",
+        rule: "sharks level, t in {2,3,5}: secrets whose elements are special values (an aligned all-zero chunk alone / twice / between others, one, p-1, a repeated value, 2^64): every element's polynomial (model interpolation from t shares, a further share on it) has non-zero, pairwise distinct non-constant coefficients and no single share carries an element as its value",
+        gen: |_| [2u64, 3, 5].iter().map(|t| json!({"t": t})).collect(),
+        run: run_special_secrets,
+        min_counts: &[("special_elements_examined", 40)],
+      },
+      Check {
+        name: "zero-entropy-runs",
+        rule: "E-env with a deviation RUN: the client's entropy source answers with 1, 2, 3, 7, 8, 9, 15, 16, 33 all-zero 24-byte candidates in a row (then fresh), t in {2,3}: the share is never at x = 0 and never carries the sharing key (a refusal is acceptable)",
+        gen: |_| [2u64, 3].iter().map(|t| json!({"t": t})).collect(),
+        run: run_zero_entropy_runs,
+        min_counts: &[("zero_runs_survived", 10)],
       },
       Check {
         name: "forged-thresholds",
